@@ -17,7 +17,7 @@ from vfw import scen_gen
 from vfw.core import HERE, Ctx, Violation, canon, jsonable
 
 PROPERTY = "C12"
-SIZES = {"quick": 480, "thorough": 8000}
+SIZES = {"quick": 800, "thorough": 8000}
 NSEEDS = {"quick": 8, "thorough": 16}
 MAX_SHARDS = 2  # each shard drives its own set of worker interpreters (2 x 8 quick, 2 x 16 thorough)
 RULE = (
